@@ -316,7 +316,25 @@ pub fn project_of(c: &Case) -> (Project, u64) {
             }
             let (open, close) = *e.pick(&[("{ ", " }"), ("lda #(", ")"), (".if 1 { ", " }"), ("q: { ", " }"), (".loop 1 { ", " }"), ("/* ", " */"), ("{\n", "}\n"), (".if 0 { nop } else { ", " }"), (".segment \"default\" { ", " }")][..]);
             let mut t = String::new();
-            if deep && e.chance(1, 3) {
+            if e.chance(1, 5) {
+                // nesting that only exists while assembling: a macro that invokes itself (directly, or through a second
+                // macro) from inside `k` blocks, so that every level of the recursion adds k levels of blocks - the
+                // text itself is shallow. Accepted up to the documented limits, rejected beyond; never a dead process.
+                let k = *e.pick(&[0usize, 1, 2, 3, 7, 20, 40, 60][..]);
+                let (o, cl) = *e.pick(&[("{ ", " }"), (".if 1 { ", " }"), ("q: { ", " }"), (".loop 1 { ", " }"), (".if 0 { nop } else { ", " }"), (".segment \"default\" { ", " }")][..]);
+                let wrap = |body: &str| format!("{}{}{}", o.repeat(k), body, cl.repeat(k));
+                t = match e.below(4) {
+                    0 => format!(".macro m() {{ {} }}\nm()", wrap("nop\nm()\n")),
+                    1 => format!(".macro a() {{ {} }}\n.macro b() {{ {} }}\na()", wrap("b()\n"), wrap("nop\na()\n")),
+                    // the recursion ends by itself after `n` levels (n * k levels of blocks): accepted or rejected, never a crash
+                    2 => {
+                        let n = *e.pick(&[1usize, 2, 3, 10, 30, 63, 64, 65][..]);
+                        format!(".macro m(n) {{ {} }}\nm({})", wrap(".if n > 0 { m(n - 1) }\nnop\n"), n)
+                    }
+                    // never invoked: only the analysis mode of the language server enters it
+                    _ => format!(".macro m() {{ {} }}\nnop", wrap("nop\nm()\n")),
+                };
+            } else if deep && e.chance(1, 3) {
                 // one expression: a long sum, calls in calls, parentheses in a sum in parentheses, a configuration in a configuration
                 let n = d * *e.pick(&[1usize, 1, 10, 40][..]);
                 t = match e.below(5) {
